@@ -7,15 +7,19 @@ import Bardolph.Proofs.SimCalls
 machine.  For every block of the fragment `Sim.FragBlock` (below) and every fuel: if the source
 semantics runs the block from `σ` to `σ'` with outcome `normal`, then the machine, started in any
 state `s` related to `σ` by `Sim.Sim` with the block's code at its program counter, reaches in
-finitely many steps a state `s'` related to `σ'`, with the program counter just past the code.
+finitely many steps a state `s'` related to `σ'`, with the program counter just past the code
+(`C01_gen_sim_partial`; with `break`, inside loops and inside routines: `C01_gen_sim_block`).
 
 `Sim.Sim K stk σ s` (`Proofs/Sim.lean`, `SimU` with no pending `printf` values) says: both are
-running; `s` has frame stack `stk`, all loop frames (at top level `stk = []`), an empty evaluation
-stack and no pending output; `σ` is at top level (no routine active); and globals, constants
-(macros), lights, the trace of events (device commands, delays, output), default colour, matrix,
-random draws and EVERY register except `result` are EQUAL.  `result` is the generated code's
-scratch register (conditions, printed values, `get` names pass through it); the source semantics
-does not model it.
+running; `s` has an empty evaluation stack and no pending output; its frame stack is the loop
+frames `stk` of the current activation on top of — at top level (`K.ret = none`) nothing, with
+`σ.locals = none`; inside a routine call (`K.ret = some (ret, rest)`) the call frame holding
+exactly `σ.locals` with return address `ret`, on top of the caller's frames `rest`;
+`σ.routines` is the script's routine table `K.routines`; and globals, constants (macros), lights,
+the trace of events (device commands, delays, output), default colour, matrix, random draws and
+EVERY register except `result` are EQUAL.  `result` is the generated code's scratch register
+(conditions, printed values, `get` names, arguments and returned values pass through it); the
+source semantics does not model it.
 
 The fragment (`Sim.FragStmt` / `FragBlock` / `FragOperand(s)` in `Proofs/SimStmts.lean`):
 * value positions (`Sim.RvOK`): literal, variable, register other than `result`, or a call-free
@@ -26,9 +30,17 @@ The fragment (`Sim.FragStmt` / `FragBlock` / `FragOperand(s)` in `Proofs/SimStmt
   (name as string or variable), `zone`, `matrixInline`, `matrixBlock` with ANY body of the fragment;
 * `ite` with or without `else`, nested to any depth;
 * `repeat_ (.count n)`, `repeat_ (.while_ c)`, `repeat_ .forever`, nested to any depth, with
-  `brk` anywhere in their bodies (inside `ite`, inside a matrix body, …).
-Not covered: routine definitions, calls (user routines and built-ins) and `return`; the `repeat`
-forms with an index variable or over lights/groups/locations.
+  `brk` anywhere in their bodies (inside `ite`, inside a matrix body, …);
+* `call f ps as` as a statement, of a routine of the script or a built-in, with simple arguments
+  (literal, variable, register other than `result`) and distinct parameter names — any depth of
+  nesting and recursion (the induction is on the fuel of `Sem`, not on the program); `ret v`
+  from any loop depth inside a routine.  The routines are given by the hypothesis
+  `Sim.RoutinesAt img R`: every routine of the table `R` has a body of the fragment whose code,
+  followed by `END`, sits at the address the image's routine table gives (as the loader lays
+  routines out), and no other name is in the image's table.
+Not covered: routine DEFINITIONS inside the block (the loader's relocation); calls in value
+positions (`[f x]`, `{… f(x) …}`); the `repeat` forms with an index variable or over
+lights/groups/locations.
 
 The full statement (`gen_sim`, DESIGN §6 C01), of which the theorems below are the part proved:
 
@@ -39,12 +51,16 @@ The full statement (`gen_sim`, DESIGN §6 C01), of which the theorems below are 
           (Vm.finish (run (Loader.load code) k (Vm.init lights))).trace = .flush :: σ'.vm.trace
 
 for every well-formed script `b` (all statement forms, routines defined anywhere at top level).
-`C01_gen_sim_loaded` is exactly this statement with `WellFormed` replaced by `Sim.FragBlock`.
+`C01_gen_sim_loaded` is exactly this statement with `WellFormed` replaced by `Sim.FragBlock`
+(a script of the fragment defines no routines, so its calls can only be to built-ins).
 What is missing for the full statement:
-* calls: the calling sequence (`C03_call_sequence`) lifted to `Sim` with an activation
-  (`σ.locals = activation s.stack` instead of `σ.locals = none`), the outcome `ret`, and value
-  positions whose evaluation changes the state (`[call]`, calls inside `{…}`);
-* routine definitions: the loader's relocation of the main segment around extracted routines;
+* routine definitions: that the image `Loader.load` makes of a script with `defRoutine`
+  statements satisfies `Sim.RoutinesAt` and has the main code, with its jumps shortened around the
+  extracted routines, equal to the code of the script without the definitions (the third example
+  below checks this for one script by evaluation);
+* calls in value positions: `Sem.evalRv`/`evalExpr` with a state-changing call, the value coming
+  back in `result` (`RetPost` would have to relate `σ'.result` to the register), and
+  `C02_postfix_eval` for expressions containing calls;
 * the index-variable and iterator forms of `repeat` (`range`, `interp`, `cycle`, `all`, `groups`,
   `locations`, `iter`): the arithmetic of `Sem.execLoop`'s `series` against the generated
   increment code, and the discovery instructions with names on the evaluation stack.
@@ -56,7 +72,10 @@ outside them; concrete scripts are at the end of this file):
 * `printf` with more arguments than positional fields: the machine writes only the last values
   and keeps the others pending, `Sem` writes them all;
 * `setReg .unitMode v` (not produced by the parser, which emits `units m`): the machine's
-  `MOVEQ … unit_mode` converts the colour registers, `Sem`'s `setReg` does not.
+  `MOVEQ … unit_mode` converts the colour registers, `Sem`'s `setReg` does not;
+* a routine with two parameters of the same name: `Sem.evalArgs` binds the FIRST argument of
+  that name (a list searched from the front), the machine's `PARAM` the LAST (`Dict.put`
+  overwrites) — hence "distinct parameter names".
 -/
 namespace Bardolph
 open Vm VmSteps Sem Gen Sim
@@ -558,6 +577,175 @@ example : (Sem.run 200 c01Script2 c01Lights2).2.vm.trace.reverse =
      .warn "light not found",
      .setPower "a" 0 2, .setPower "m" 0 2, .setPower "a" 0 2, .setPower "m" 0 2, .setPower "z" 0 2,
      .allColor [1000, 200, 300, 3000] 2] := by decide +kernel
+
+/-! ### third script: a routine with a parameter that calls itself, returns from inside a counted
+loop and from an `if`, leaves a loop with `break`; called with a variable and with literals
+
+The image is the one the loader makes of the whole script (routine first): a jump over the
+routine, the `ROUTINE` marker, the body, `END`, then the main code. -/
+
+def downBody : Block := Block.ofList [
+  .ite (.expr (.bin .lte (.var "n") (.lit (.int 0)))) (Block.ofList [.ret none]) none,
+  .print (.var "n"),
+  .repeat_ (.count (.lit (.int 2))) (Block.ofList [
+    .ite (.expr (.bin .gt (.var "n") (.lit (.int 1)))) (Block.ofList [.brk]) none,
+    .println (some (.var "n")),
+    .ite (.expr (.bin .eq (.var "x") (.lit (.int 2)))) (Block.ofList [.ret (some (.var "n"))]) none]),
+  .assign "m" (.expr (.bin .sub (.var "n") (.lit (.int 1)))),
+  .call "down" ["n"] (.cons (.var "m") .nil)]
+
+def mainBlock : Block := Block.ofList [
+  .assign "x" (.lit (.int 2)),
+  .call "down" ["n"] (.cons (.var "x") .nil),
+  .print (.var "x"),
+  .assign "x" (.lit (.int 7)),
+  .call "down" ["n"] (.cons (.lit (.int 1)) .nil),
+  .call "down" ["n"] (.cons (.lit (.int 0)) .nil)]
+
+def wholeScript : Block := .cons (.defRoutine "down" ["n"] downBody) mainBlock
+
+
+/-- the code of the routine body (49 instructions) -/
+def downCode : List Instr :=
+  [Instr.push (Src.var "n"),
+  Instr.pushq (Val.int 0),
+  Instr.op (Operator.lte),
+  Instr.pop (Dst.reg (Reg.result)),
+  Instr.jump (JumpCond.ifFalse) 3,
+  Instr.moveq (Val.none) (Dst.reg (Reg.result)),
+  Instr.ret,
+  Instr.move (Src.var "n") (Dst.reg (Reg.result)),
+  Instr.out (IoOp.register) (Src.reg (Reg.result)),
+  Instr.out (IoOp.print) (Src.lit (Val.none)),
+  Instr.loop,
+  Instr.moveq (Val.int 2) (Dst.loopVar (LoopVar.counter)),
+  Instr.push (Src.loopVar (LoopVar.counter)),
+  Instr.pushq (Val.int 0),
+  Instr.op (Operator.gt),
+  Instr.pop (Dst.reg (Reg.result)),
+  Instr.jump (JumpCond.ifFalse) 23,
+  Instr.push (Src.var "n"),
+  Instr.pushq (Val.int 1),
+  Instr.op (Operator.gt),
+  Instr.pop (Dst.reg (Reg.result)),
+  Instr.jump (JumpCond.ifFalse) 2,
+  Instr.jump (JumpCond.always) 17,
+  Instr.move (Src.var "n") (Dst.reg (Reg.result)),
+  Instr.out (IoOp.register) (Src.reg (Reg.result)),
+  Instr.out (IoOp.print) (Src.lit (Val.none)),
+  Instr.out (IoOp.printEnd) (Src.lit (Val.none)),
+  Instr.push (Src.var "x"),
+  Instr.pushq (Val.int 2),
+  Instr.op (Operator.eq),
+  Instr.pop (Dst.reg (Reg.result)),
+  Instr.jump (JumpCond.ifFalse) 3,
+  Instr.move (Src.var "n") (Dst.reg (Reg.result)),
+  Instr.ret,
+  Instr.push (Src.loopVar (LoopVar.counter)),
+  Instr.pushq (Val.int 1),
+  Instr.op (Operator.sub),
+  Instr.pop (Dst.loopVar (LoopVar.counter)),
+  Instr.jump (JumpCond.always) (-26),
+  Instr.endLoop,
+  Instr.push (Src.var "n"),
+  Instr.pushq (Val.int 1),
+  Instr.op (Operator.sub),
+  Instr.pop (Dst.var "m"),
+  Instr.ctx,
+  Instr.move (Src.var "m") (Dst.reg (Reg.result)),
+  Instr.param "n" (Src.reg (Reg.result)),
+  Instr.jsr "down",
+  Instr.endCtx]
+
+/-- the code of the main block -/
+def mainCode : List Instr := [
+  .moveq (.int 2) (.var "x"),
+  .ctx, .move (.var "x") (.reg .result), .param "n" (.reg .result), .jsr "down", .endCtx,
+  .move (.var "x") (.reg .result), .out .register (.reg .result), .out .print (.lit .none),
+  .moveq (.int 7) (.var "x"),
+  .ctx, .moveq (.int 1) (.reg .result), .param "n" (.reg .result), .jsr "down", .endCtx,
+  .ctx, .moveq (.int 0) (.reg .result), .param "n" (.reg .result), .jsr "down", .endCtx]
+
+def callImg : Image :=
+  ⟨(([Instr.jump .always 52, .routine "down"] : List Instr) ++ (downCode ++ [Instr.end_ "down"]) ++
+      mainCode).toArray,
+   [("down", 2)]⟩
+
+def callRoutines : List (String × Sem.Routine) := [("down", ⟨["n"], downBody⟩)]
+
+theorem downBody_frag : FragBlock downBody := by
+  simp only [downBody, Block.ofList, FragBlock, FragStmt, RvOK, LoopHdrOK, NoResultReg]
+  refine ⟨?_, ?_, ?_, ?_, ?_, ?_⟩
+  all_goals first
+    | trivial
+    | decide
+    | (repeat' constructor) <;> first | trivial | decide | nofun
+
+theorem mainBlock_frag : FragBlock mainBlock := by
+  simp only [mainBlock, Block.ofList, FragBlock, FragStmt, RvOK, NoResultReg]
+  refine ⟨?_, ?_, ?_, ?_, ?_, ?_, ?_⟩
+  all_goals first
+    | trivial
+    | decide
+    | (repeat' constructor) <;> first | trivial | decide | nofun
+
+set_option maxRecDepth 8000 in
+theorem downBody_code : Gen.genProgram downBody = some downCode := by
+  simp [Gen.genProgram, downBody, Block.ofList, genBlock, genStmt, genRv, genExpr, genIf, genLoop,
+    assembleLoop, patchBreaks_eq, patchRec, genCall, genParams, ins, counterTest, testOp, loopPost,
+    counter, result, pushLit, downCode]
+
+set_option maxRecDepth 8000 in
+theorem mainBlock_code : Gen.genProgram mainBlock = some mainCode := by
+  simp [Gen.genProgram, mainBlock, Block.ofList, genBlock, genStmt, genRv, genCall, genParams, ins,
+    result, mainCode]
+
+/-- the image is what the loader makes of the compiled whole script -/
+example : (Loader.load ([Instr.routine "down"] ++ downCode ++ [Instr.end_ "down"] ++ mainCode)).code.toList =
+      callImg.code.toList ∧
+    (Loader.load ([Instr.routine "down"] ++ downCode ++ [Instr.end_ "down"] ++ mainCode)).routines =
+      callImg.routines := by decide +kernel
+
+theorem callImg_routines : RoutinesAt callImg callRoutines := by
+  intro name
+  by_cases h : name = "down"
+  · subst h
+    refine ⟨downBody_frag, 2, "down", rfl, ?_⟩
+    rw [resolve_of_mapM _ _ downBody_code]
+    exact CodeAt.intro [Instr.jump .always 52, .routine "down"] (downCode ++ [Instr.end_ "down"]) mainCode _
+  · have h1 : ("down" == name) = false := by
+      simp only [beq_eq_false_iff_ne, ne_eq]; exact fun e => h e.symm
+    simp [callRoutines, h1, callImg, Image.routine?]
+
+/-- the source-level run of the main block, with the routine in the table -/
+theorem mainBlock_sem :
+    (execBlock 200 mainBlock { vm := Vm.init [], routines := callRoutines }).1 = .normal := by
+  decide +kernel
+
+/-- `C01_once_each_in_order` applied: started at the main code (where the initial jump leads),
+the machine leaves exactly the source-level trace -/
+example : ∃ k, (run callImg k { Vm.init [] with pc := 52 }).trace =
+    (execBlock 200 mainBlock { vm := Vm.init [], routines := callRoutines }).2.vm.trace := by
+  have hc : CodeAt callImg 52 mainCode := by
+    have := CodeAt.intro ([Instr.jump .always 52, .routine "down"] ++ (downCode ++ [Instr.end_ "down"]))
+      mainCode [] [("down", 2)]
+    have hl : downCode.length = 49 := rfl
+    simpa [callImg, hl] using this
+  have hsim : Sim ⟨none, callRoutines⟩ [] { vm := Vm.init [], routines := callRoutines }
+      { Vm.init [] with pc := 52 } :=
+    ⟨rfl, rfl, LoopsOnly.nil, rfl, rfl, ⟨rfl, rfl⟩, rfl, rfl, rfl, rfl, rfl, rfl, rfl, rfl, fun _ _ => rfl⟩
+  obtain ⟨k, hk, _⟩ := C01_once_each_in_order callImg callRoutines callImg_routines mainBlock
+    mainBlock_frag mainCode mainBlock_code 200 _ _ _ 52 hsim rfl hc (eq_of_fst mainBlock_sem)
+  exact ⟨k, hk⟩
+
+/-- by evaluation: the whole script (routine definition first) through the loader and the
+machine, and through `Sem.run` -/
+example : (Vm.finish (Vm.run callImg 1000 (Vm.init []))).trace =
+    .flush :: (Sem.run 200 wholeScript []).2.vm.trace := by decide +kernel
+
+example : (Sem.run 200 wholeScript []).2.vm.trace.reverse =
+    [.out (.int 2), .out (.int 1), .out (.int 1), .newline, .out (.int 2),
+     .out (.int 1), .out (.int 1), .newline, .out (.int 1), .newline] := by decide +kernel
 
 /-! ### why the fragment excludes reading `result` and `setReg unitMode`: on these scripts the
 source semantics and the machine (both of the MODEL) disagree
